@@ -1019,3 +1019,134 @@ def check_numpy_unit_space(run, tree):
     else:
         run.ob(construct, not bad, wn.where(), ("%d of %d calls wrong: %s" % (len(bad), n, "; ".join(bad[:5]))) if bad else "%d calls denote the product / quotient of the quantities" % n,
                "the unit of a product or quotient computed through numpy does not follow the operands")
+
+
+# =============================================================================== Vector.norm on corner inputs (concrete small vectors)
+class CArr(Model):
+    """a concrete small numpy array: python numbers + a dtype; IEEE semantics for division (0/0 = nan, x/0 = inf), numpy semantics for booleans"""
+    kinds = ("ndarray",)
+
+    def __init__(self, vals, dtype="float64"):
+        self.vals, self.dtype = list(vals), DT(dtype) if isinstance(dtype, str) else dtype
+        self.shape = (len(self.vals),)
+
+    def _name(self):
+        return repr(self.dtype).replace("dtype(", "").rstrip(")").strip("'")
+
+    def _other(self, o):
+        return o.vals if isinstance(o, CArr) else [o] * len(self.vals)
+
+    def _res(self, vals, o, op):
+        names = {self._name(), o._name() if isinstance(o, CArr) else ("float64" if isinstance(o, float) else "int64" if isinstance(o, int) and not isinstance(o, bool) else "bool")}
+        dt = "float64" if ("float64" in names or op == "/") else "float16" if "float16" in names else "int64" if "int64" in names else "bool"
+        if dt == "bool":
+            vals = [bool(v) for v in vals]
+        return CArr(vals, dt)
+
+    def __mul__(self, o):
+        return self._res([a * b for a, b in zip(self.vals, self._other(o))], o, "*")
+
+    __rmul__ = __mul__
+
+    def __add__(self, o):
+        return self._res([a + b for a, b in zip(self.vals, self._other(o))], o, "+")
+
+    def __iadd__(self, o):
+        r = self.__add__(o)
+        if repr(r.dtype) != repr(self.dtype) and self._name() in ("bool", "int64") and r._name().startswith("float"):
+            raise Raised("UFuncTypeError", None, "cannot cast the result of add from %s to %s" % (r._name(), self._name()))
+        self.vals = r.vals if self._name() != "bool" else [bool(v) for v in r.vals]
+        return self
+
+    def __truediv__(self, o):
+        out = []
+        for a, b in zip(self.vals, self._other(o)):
+            a, b = float(a), float(b)
+            out.append(float("nan") if (b == 0 and (a == 0 or a != a)) else (float("inf") if a > 0 else float("-inf")) if b == 0 else a / b)
+        return CArr(out, "float64")
+
+    def __neg__(self):
+        return CArr([-v for v in self.vals], self.dtype)
+
+    def __pow__(self, n):
+        return CArr([(float("nan") if v != v else v ** n) for v in self.vals], "float64" if self._name().startswith("float") or not isinstance(n, int) else self.dtype)
+
+    def __sub__(self, o):
+        return self._res([a - b for a, b in zip(self.vals, self._other(o))], o, "-")
+
+    def __abs__(self):
+        return CArr([abs(v) for v in self.vals], self.dtype)
+
+    def __getitem__(self, i):
+        if i == ():
+            return self
+        return self.vals[i]
+
+    def __len__(self):
+        return len(self.vals)
+
+    def copy(self):
+        return CArr(self.vals, self.dtype)
+
+
+def _c_sqrt(x, out=None, **k):
+    import math
+    if not isinstance(x, CArr):
+        return math.sqrt(x)
+    res = CArr([float("nan") if (v != v or v < 0) else math.sqrt(v) for v in x.vals], "float16" if x._name() == "bool" else "float64")
+    if out is not None:
+        o = out[0] if isinstance(out, tuple) else out
+        if o._name() in ("bool", "int64"):
+            raise Raised("UFuncTypeError", None, "cannot cast ufunc 'sqrt' output from %s to %s" % (res._name(), o._name()))
+        o.vals, o.dtype = res.vals, o.dtype
+        return o
+    return res
+
+
+def check_norm_corner_cases(run, tree):
+    """Vector.norm interpreted on small concrete vectors that a formula-level fold does not separate: a row of exact zeros (the norm is 0, not
+    nan), boolean components (the element-wise != of two Vectors, reduced by Datagroup.__eq__ through .norm: no cast error, truthy exactly where
+    a component differs), integer components"""
+    vi = tree.cls(VECTOR_Q)
+    m = tree.method(vi, "norm")
+    run.analysed(m)
+    cases = [("rows (3,4,0) and (0,0,0), float", [[3.0, 0.0], [4.0, 0.0], [0.0, 0.0]], "float64", [5.0, 0.0]),
+             ("rows (0,0) and (6,8), 2 components", [[0.0, 6.0], [0.0, 8.0]], "float64", [0.0, 10.0]),
+             ("boolean components (a != b of two Vectors)", [[True, False, False], [False, False, True], [False, False, False]], "bool", [1.0, 0.0, 1.0]),
+             ("integer components", [[3, 0], [4, 0], [0, 0]], "int64", [5.0, 0.0])]
+    for label, comps, dtype, want in cases:
+        construct = "%s.norm[%s]" % (VECTOR_Q, label)
+        try:
+            hk = stack_hooks(tree)
+            hk["ext"].update({"numpy.sqrt": _c_sqrt, "numpy.abs": abs, "numpy.absolute": abs, "numpy.fabs": abs,
+                              "numpy.zeros": lambda shape, *a, **k: CArr([0.0] * (shape[0] if isinstance(shape, (tuple, list)) else shape)),
+                              "numpy.zeros_like": lambda x, *a, **k: CArr([0.0] * len(x)), "numpy.shape": lambda x: x.shape,
+                              "numpy.asarray": lambda x, *a, **k: x,
+                              "numpy.maximum.reduce": lambda xs, *a, **k: CArr([max(col) for col in zip(*[x.vals for x in xs])], xs[0].dtype),
+                              "numpy.maximum": lambda a, b, *r, **k: CArr([max(p, q) for p, q in zip(a.vals, b.vals)], a.dtype),
+                              "numpy.hypot": lambda a, b, *r, **k: CArr([(float(p) ** 2 + float(q) ** 2) ** 0.5 for p, q in zip(a.vals, b.vals)]),
+                              "numpy.errstate": lambda **k: _NullCtx()})
+            ci = tree.cls(ARRAY_Q)
+            ev = ModelEval(tree, tree.method(ci, "__init__"), {}, hk)
+            arrs = {c: ev.instantiate(ci, [], {"values": CArr(v, dtype), "unit": "m"}, None) for c, v in zip("xyz", comps)}
+            v = ModelEval(tree, tree.method(vi, "__init__"), {}, hk).instantiate(vi, [], dict(arrs), None)
+            try:
+                out = ModelEval(tree, m, {}, hk).obj_getattr(v, "norm")
+                vals = out._attrs.get("_array") if isinstance(out, PyObj) else out
+                got = [float(x) for x in vals.vals] if isinstance(vals, CArr) else vals
+                ok = isinstance(got, list) and len(got) == len(want) and all((g == g) and abs(g - w) < 1e-3 for g, w in zip(got, want))
+                detail = "norm = %s (required %s)" % (got, want)
+            except (Raised, ProgramRaised) as e:
+                ok, detail = False, "raises %s" % e
+            run.ob(construct, ok, m.where(), detail, "the norm of a vector of exact zeros is nan (the point is dropped from histograms, sphere selections and sums), or the norm of a "
+                   "boolean Vector raises (Datagroup == Datagroup with a Vector member)")
+        except ERR as e:
+            run.unresolved(construct, m.where(), "cannot fold: %s" % e)
+
+
+class _NullCtx(Model):
+    def __enter__(self):
+        return self
+
+    def __exit__(self, *a):
+        return False
